@@ -170,6 +170,24 @@ pub fn run_async(sh: &Shared, mut tasks: Vec<Option<Task>>) -> Vec<Option<Caught
                 }
                 continue;
             }
+            if w.silent_peer && asleep == [RECEIVER as usize] {
+                if let Some(cap) = w.reader_parked_cap {
+                    if cap > 0 {
+                        // waiting for a silent peer with room in the buffer: legitimate; end quietly
+                        if let Some(r) = w.recvs.last_mut() {
+                            if matches!(r.outcome, RecvOutcome::InFlight) {
+                                r.outcome = RecvOutcome::Waiting;
+                            }
+                        }
+                        w.abort = true;
+                        continue;
+                    }
+                    let d = "recv() is waiting on a read call with a zero-length buffer: the receive buffer is full, no progress is possible, and buffer exhaustion was not reported".to_string();
+                    w.violate("", "O1-outcomes", "hang:read-with-no-room", "recv", d);
+                    w.abort = true;
+                    continue;
+                }
+            }
             let d = format!(
                 "tasks {:?} are pending, none is woken and no timer is armed (pipe {} of {} bytes, writer_closed={}, reader_closed={})",
                 asleep,
